@@ -89,3 +89,91 @@ def to_poly(n, leaf, depth=0):
             return None
         return a + b if n.op == "+" else (a - b if n.op == "-" else a * b)
     return leaf(n)
+
+
+def lockstep_env(fn, use, leaf):
+    """{decl id: Poly} for locals whose value at element `use` follows from loop lock-step:
+    a local v initialised to E0 before a counting loop and advanced by a constant c_v exactly once per iteration, next
+    to the loop's induction variable i (initialised to I0, advanced by c_i exactly once per iteration) satisfies
+        inside the body, before the advances:   v = E0 + (i - I0) * c_v / c_i
+        after the loop (exit by `i < B` failing, c_i = 1, single exit):   i = B  and  v = E0 + (B - I0) * c_v
+    Only exact integer ratios are used.  `leaf` maps other expressions to Poly (as for to_poly)."""
+    from . import flow
+    env = {}
+    pos = fn.positions()
+    if use.id not in pos:
+        # find enclosing CFG element
+        cur, hops = use, 0
+        while cur is not None and cur.id not in pos and hops < 60:
+            cur = fn.parent(cur)
+            hops += 1
+        if cur is None or cur.id not in pos:
+            return env
+        use = cur
+    ub = pos[use.id][0]
+    dom = fn.dominators()
+    for lp in flow.natural_loops(fn):
+        ind = flow.induction(fn, lp)
+        # every local stepped by a constant exactly once per iteration
+        steps = {}
+        for b in lp.body:
+            for n in fn.blocks[b].nodes():
+                v, c = None, None
+                if n.kind == "UnaryOperator" and n.op in ("++", "--"):
+                    v, c = flow._var_of(n.children[0]), (1 if n.op == "++" else -1)
+                elif n.kind == "CompoundAssignOperator" and n.op in ("+=", "-="):
+                    k = n.children[1].strip().cv()
+                    if k is not None:
+                        v, c = flow._var_of(n.children[0]), (k if n.op == "+=" else -k)
+                elif n.kind in ("BinaryOperator", "CompoundAssignOperator") and n.op.endswith("=") and n.op not in ("==", "!=", "<=", ">="):
+                    v, c = flow._var_of(n.children[0]), None
+                if v is not None:
+                    steps.setdefault(v, []).append((n, c, b))
+        once = {}
+        for v, lst in steps.items():
+            if len(lst) == 1 and lst[0][1] is not None and all(lst[0][2] == l or lst[0][2] in dom.get(l, ()) for l in lp.latches):
+                once[v] = lst[0]
+        ivs = [v for v in ind if v in once and ind[v].get("init") is not None]
+        if not ivs:
+            continue
+        i = ivs[0]
+        I0 = to_poly(ind[i]["init"], leaf)
+        ci = once[i][1]
+        if I0 is None or ci == 0:
+            continue
+        inside = ub in lp.body
+        after = (not inside) and all(lp.header in dom.get(ub, ()) for _ in (0,))
+        exits = [(b, s) for b in lp.body for s in fn.blocks[b].live_succs() if s not in lp.body]
+        single_exit = len(exits) == 1 and exits[0][0] == lp.header
+        bound = ind[i].get("bound")
+        for v, (sn, cv_, sb) in once.items():
+            if v == i:
+                continue
+            # initial value of v: the last definition before the loop
+            init = None
+            for b in fn.blocks.values():
+                if b.id in lp.body:
+                    continue
+                for n in b.nodes():
+                    if n.kind == "DeclStmt":
+                        for d in n.get("decls", []):
+                            if d["d"] == v and "init" in d and (b.id == lp.header or b.id in dom.get(lp.header, ())):
+                                init = fn.node(d["init"])
+                    elif n.kind == "BinaryOperator" and n.op == "=" and flow._var_of(n.children[0]) == v and b.id in dom.get(lp.header, ()):
+                        init = n.children[1]
+            if init is None:
+                continue
+            E0 = to_poly(init, leaf)
+            if E0 is None or cv_ % ci != 0:
+                continue
+            ratio = cv_ // ci
+            if inside:
+                # use must come before both advances in the iteration
+                if fn.dominates(use.id, sn.id) and fn.dominates(use.id, once[i][0].id):
+                    env[v] = E0 + (Poly.sym("v%d" % i) - I0) * Poly.const(ratio)
+            elif after and single_exit and bound is not None and bound[0] == "<" and ci == 1:
+                B = to_poly(bound[1], leaf)
+                if B is not None:
+                    env[v] = E0 + (B - I0) * Poly.const(ratio)
+                    env.setdefault(i, B)
+    return env
